@@ -473,7 +473,7 @@ def run(repo, check):
     check.run_rule(rule_r4, repo)
     check.run_rule(rule_r7, repo)
     from sa.rules import c11
-    r5 = c11.rule_r1(repo)
+    r5 = check.call(c11.rule_r1, repo)
     r5.rule = 'C17.R5'
     r5.title = 'metadata-only scanning takes each message\'s bytes from its declared total length (shared with C11.R1)'
     r5.findings = [f for f in r5.findings if ':info:' in f.key]
